@@ -126,7 +126,7 @@ func buildOutputs(p *Prog) (string, error) {
 
 func c17Progs(seed uint64, n int) []*Prog {
 	rng := NewRNG(seed + 4000)
-	progs := pipelineCorpus()
+	progs := append(pipelineCorpus(), largeProgs()...)
 	for len(progs) < n {
 		nv := []int{4, 10, 14, 16, 22}[rng.Intn(5)]
 		progs = append(progs, genProg(rng, ProgOpts{MaxNodes: 10 + rng.Intn(60), Phys: rng.Chance(60), Synth: false, NVirt: nv, Branches: rng.Chance(60)}))
